@@ -142,5 +142,17 @@ pub proof fn lemma_btree_iter_sorted<K: Ord, V>(m: Map<K, V>, rem: Seq<(&K, &V)>
     assert forall|i: int| 0 <= i < rem.len() implies *(#[trigger] rem[i]).1 == m[sorted_seq(m.dom())[i]] by { assert(ks[i] == *rem[i].0); }
 }
 
+// what `BTreeMap::values()` yields (vstd states it through an existential key sequence): the values in ascending key order
+pub proof fn lemma_btree_values_sorted<K: Ord, V>(m: Map<K, V>, rem: Seq<&V>)
+    requires obeys_cmp::<K>(), lt_laws::<K>(),
+        exists|ks: Seq<K>| #![trigger increasing_seq(ks)] increasing_seq(ks) && ks.to_set() == m.dom() && ks.no_duplicates() && rem.len() == ks.len()
+            && forall|i: int| 0 <= i < ks.len() ==> *(#[trigger] rem[i]) == m[ks[i]],
+    ensures rem.len() == sorted_seq(m.dom()).len(), forall|i: int| 0 <= i < rem.len() ==> *(#[trigger] rem[i]) == m[sorted_seq(m.dom())[i]],
+{
+    let ks = choose|ks: Seq<K>| #![trigger increasing_seq(ks)] increasing_seq(ks) && ks.to_set() == m.dom() && ks.no_duplicates() && rem.len() == ks.len()
+            && forall|i: int| 0 <= i < ks.len() ==> *(#[trigger] rem[i]) == m[ks[i]];
+    lemma_sorted_seq::<K>(ks, m.dom());
+}
+
 } // verus!
 }
